@@ -68,6 +68,32 @@ fn counts(st: Strat, diff: i64) -> Option<(i64, i64, i64, i64, i64)> {
   }
 }
 
+/// LunarSect1 counts by whole days and double-hours ("3 days = 1 year, 1 day = 4 months, 1 double-hour = 10
+/// days"): the double-hour of an instant is (hour + 1) / 2, with 23:xx counted as the twelfth double-hour of its
+/// own civil day (the strategy's convention); the earlier of (birth, Jie) is subtracted from the later with a
+/// borrow of one day = 12 double-hours
+fn sect1_counts(a: i64, jie_sec: i64) -> (i64, i64, i64, i64, i64) {
+  let (start, end) = if a > jie_sec { (jie_sec, a) } else { (a, jie_sec) };
+  let zhi = |x: i64| {
+    let h = x.rem_euclid(86400) / 3600;
+    if h == 23 {
+      11
+    } else {
+      (h + 1) / 2
+    }
+  };
+  let mut hours = zhi(end) - zhi(start);
+  let mut days = end.div_euclid(86400) - start.div_euclid(86400);
+  if hours < 0 {
+    hours += 12;
+    days -= 1;
+  }
+  // 10 days per double-hour, 30 days per month, 4 months per day, 12 months per year
+  let total_days = hours * 10;
+  let months = days * 4 + total_days / 30;
+  (months / 12, months % 12, total_days % 30, 0, 0)
+}
+
 fn split(a: i64) -> (i64, i64, i64, i64, i64, i64) {
   let (y, m, d) = cal().date(a.div_euclid(86400));
   let sod = a.rem_euclid(86400);
@@ -157,7 +183,7 @@ fn check_birth(a: i64, man: bool, st: Strat, via_global: bool, log: &mut Log) {
     }
   });
   // what the end should be, by the counts the oracle derives (or, for Sect1, the counts reported)
-  let want_counts = counts(st, diff);
+  let want_counts = if st == Strat::Sect1 { Some(sect1_counts(a, jie.sec)) } else { counts(st, diff) };
   match r {
     Err(msg) => {
       // a panic is expected only where the nominal end meets the October-1582 gap
@@ -409,13 +435,13 @@ pub fn run(cfg: &Cfg) -> (Log, Meta) {
   log.floor("fortune.lunar_year_getters", cfg.tier.pick(100_000, 3_000_000));
   let meta = Meta {
     rule: format!(
-      "single-threaded sequences of 10 related births (first days of January / December after Daxue / first days of the next January of one civil year in both orders, both sides of the Jie inside one civil month, the same month one year later, both genders) before anything else runs, each judged like every other birth; {} seeded births x both genders through ChildLimit::from_solar_time with the default strategy (1/3 in 1570-1583, 1/12 within 3 s of a Jie instant, 1/12 on month/year ends late in the day, 1/12 on days 28-31): direction from year-stem polarity and gender, eight characters, governing Jie from the term list, counts by the 3 d = 1 y ... 1 s = 2 min rule, end = birth + counts by nominal calendar addition, 0 <= end - birth <= 11 y + 2 d, decade fortune 0 and k (pillar, start/end age, years, index, start fortune), fortune 0 and 3k (pillar, age, year), ages, the seven deprecated lunar-year getters (lunar year of the birth by the enumerated months + civil years to the end + steps); {} births per alternative strategy (China95, LunarSect1, LunarSect2 and Default) called directly and through the guarded global provider switch: counts by the strategy's rule (Sect1: reported counts), same end-instant and fortune oracles. Ends whose nominal day carry meets October 1582 at a day number > 4 other than 15..21 form the signature class C16/end-1582-10 (listed finding). distinct_nontrivial = distinct (birth, gender, strategy, route).",
+      "single-threaded sequences of 10 related births (first days of January / December after Daxue / first days of the next January of one civil year in both orders, both sides of the Jie inside one civil month, the same month one year later, both genders) before anything else runs, each judged like every other birth; {} seeded births x both genders through ChildLimit::from_solar_time with the default strategy (1/3 in 1570-1583, 1/12 within 3 s of a Jie instant, 1/12 on month/year ends late in the day, 1/12 on days 28-31): direction from year-stem polarity and gender, eight characters, governing Jie from the term list, counts by the 3 d = 1 y ... 1 s = 2 min rule, end = birth + counts by nominal calendar addition, 0 <= end - birth <= 11 y + 2 d, decade fortune 0 and k (pillar, start/end age, years, index, start fortune), fortune 0 and 3k (pillar, age, year), ages, the seven deprecated lunar-year getters (lunar year of the birth by the enumerated months + civil years to the end + steps); {} births per alternative strategy (China95, LunarSect1, LunarSect2 and Default) called directly and through the guarded global provider switch: counts by the strategy's rule (Sect1: whole days and double-hours), same end-instant and fortune oracles. Ends whose nominal day carry meets October 1582 at a day number > 4 other than 15..21 form the signature class C16/end-1582-10 (listed finding). distinct_nontrivial = distinct (birth, gender, strategy, route).",
       n_default, n_other
     ),
     assumptions: vec![
       "term instants from the library, rounded to the second as the library does; births whose governing Jie is rounding-ambiguous are skipped".into(),
       "births on the 160 reform-era days of C02/C07 are not drawn".into(),
-      "LunarSect1's count rule (double-hour and day differences) is not re-derived; its reported counts are fed to the end-instant oracle".into(),
+      "LunarSect1's count rule is re-derived from its description (whole days and double-hours, 3 days = 1 year, 1 day = 4 months, 1 double-hour = 10 days) with the strategy's convention that 23:xx is the twelfth double-hour of its own day".into(),
     ],
     exhaustive: false,
   };
